@@ -65,7 +65,7 @@ func listConstructs() []listConstruct {
 	}
 }
 
-const nNullKinds = 10
+const nNullKinds = 13
 
 // nullish returns an item that must render nothing.
 func nullish(kind int) jen.Code {
@@ -88,12 +88,19 @@ func nullish(kind int) jen.Code {
 		return jen.List(jen.Null(), jen.Add(jen.Null()))
 	case 8:
 		return jen.Add(nil, jen.Null())
-	default:
+	case 9:
 		return jen.Union(nil, jen.List(nil))
+	case 10:
+		// a Custom group without opening and closing token is a plain list: with no items it renders nothing
+		return jen.Custom(jen.Options{Separator: ","})
+	case 11:
+		return jen.Custom(jen.Options{Separator: ",", Multi: true}, jen.Null(), nil)
+	default:
+		return jen.CustomFunc(jen.Options{}, func(g *jen.Group) { g.Null(); g.Add(nil) })
 	}
 }
 
-var nullKindNames = []string{"nil", "Null()", "Add()", "List()", "Union()", "Tag(nil)", "(*Statement)(nil)", "List(Null(),Add(Null()))", "Add(nil,Null())", "Union(nil,List(nil))"}
+var nullKindNames = []string{"nil", "Null()", "Add()", "List()", "Union()", "Tag(nil)", "(*Statement)(nil)", "List(Null(),Add(Null()))", "Add(nil,Null())", "Union(nil,List(nil))", "Custom({,})", "Custom({, multi},Null(),nil)", "CustomFunc({},nulls)"}
 
 type listCase struct {
 	Construct int   `json:"construct"`
@@ -493,7 +500,7 @@ func c13GroupNull(r *mon.Run) {
 }
 
 func runC13(r *mon.Run) {
-	r.SetRule("part 1: every list construct (35: Call, Params, List, Values, Index, Block, Defs, Case, Types, Union, Return, If/For/Switch (+Block), Interface, Struct, built-ins, Add, Custom x5, BlockFunc, CallFunc) x arity 0-5 x every non-empty subset of gaps holding a null-ish item (10 kinds, rotating) — complete; plus random arity 0-12, multiplicities and Empty() positions; judged on the raw (NoFormat) rendering: bytes equal to the list without the nulls, items x1..xn present in order, Empty() separated like a real item. part 1b: the statement returned by (*Group).Null() in 15 …Func constructs and by (*File).Null(), before/between/after real items, empty and then given a token (placeholder idiom and chaining). part 2: null injection at every list of real programs (corpus), judged against the source AST. non-trivial = at least one null-ish item injected; distinct by case text")
+	r.SetRule("part 1: every list construct (35: Call, Params, List, Values, Index, Block, Defs, Case, Types, Union, Return, If/For/Switch (+Block), Interface, Struct, built-ins, Add, Custom x5, BlockFunc, CallFunc) x arity 0-5 x every non-empty subset of gaps holding a null-ish item (13 kinds, rotating) — complete; plus random arity 0-12, multiplicities and Empty() positions; judged on the raw (NoFormat) rendering: bytes equal to the list without the nulls, items x1..xn present in order, Empty() separated like a real item. part 1b: the statement returned by (*Group).Null() in 15 …Func constructs and by (*File).Null(), before/between/after real items, empty and then given a token (placeholder idiom and chaining). part 2: null injection at every list of real programs (corpus), judged against the source AST. non-trivial = at least one null-ish item injected; distinct by case text")
 	r.Assume("an empty Types() is not used as a null item (the statement does not list it); nulls are not injected next to a Dict inside Values (contract panic)")
 	c13NegControls(r)
 	c13GroupNull(r)
